@@ -3,34 +3,63 @@ module verif/harness
 go 1.25.0
 
 require (
+	filippo.io/edwards25519 v1.2.0
 	github.com/aperturerobotics/bifrost v0.0.0
 	github.com/aperturerobotics/controllerbus v0.53.1
 	github.com/aperturerobotics/protobuf-go-lite v0.12.2
 	github.com/aperturerobotics/starpc v0.49.3
 	github.com/aperturerobotics/util v1.33.1
 	github.com/blang/semver/v4 v4.0.0
+	github.com/klauspost/compress v1.18.5
 	github.com/mr-tron/base58 v1.3.0
+	github.com/quic-go/quic-go v0.59.0
 	github.com/sirupsen/logrus v1.9.5-0.20260309202648-9f0600962f75
 	github.com/zeebo/blake3 v0.2.4
+	golang.org/x/crypto v0.50.0
 )
 
 require (
-	filippo.io/edwards25519 v1.2.0 // indirect
 	github.com/aperturerobotics/entitygraph v0.11.0 // indirect
+	github.com/aperturerobotics/go-multiaddr v0.16.2-0.20260312224838-f595884c2621 // indirect
 	github.com/aperturerobotics/go-websocket v1.8.15-0.20260329113544-74dbfb8f11c6 // indirect
 	github.com/aperturerobotics/json-iterator-lite v1.0.1-0.20260223122953-12a7c334f634 // indirect
 	github.com/bwesterb/go-ristretto v1.2.3 // indirect
 	github.com/cloudflare/circl v1.6.3 // indirect
-	github.com/klauspost/compress v1.18.5 // indirect
+	github.com/google/uuid v1.6.0 // indirect
+	github.com/ipfs/go-cid v0.0.7 // indirect
 	github.com/klauspost/cpuid/v2 v2.2.10 // indirect
 	github.com/libp2p/go-buffer-pool v0.1.0 // indirect
 	github.com/libp2p/go-yamux/v4 v4.0.2 // indirect
+	github.com/multiformats/go-base32 v0.1.0 // indirect
+	github.com/multiformats/go-base36 v0.2.0 // indirect
+	github.com/multiformats/go-multibase v0.2.0 // indirect
+	github.com/multiformats/go-multihash v0.2.3 // indirect
+	github.com/multiformats/go-varint v0.0.7 // indirect
 	github.com/patrickmn/go-cache v2.1.0+incompatible // indirect
+	github.com/pion/datachannel v1.6.0 // indirect
+	github.com/pion/dtls/v3 v3.1.2 // indirect
+	github.com/pion/ice/v4 v4.2.2 // indirect
+	github.com/pion/interceptor v0.1.44 // indirect
+	github.com/pion/logging v0.2.4 // indirect
+	github.com/pion/mdns/v2 v2.1.0 // indirect
+	github.com/pion/randutil v0.1.0 // indirect
+	github.com/pion/rtcp v1.2.16 // indirect
+	github.com/pion/rtp v1.10.1 // indirect
+	github.com/pion/sctp v1.9.4 // indirect
+	github.com/pion/sdp/v3 v3.0.18 // indirect
+	github.com/pion/srtp/v3 v3.0.10 // indirect
+	github.com/pion/stun/v3 v3.1.1 // indirect
+	github.com/pion/transport/v4 v4.0.1 // indirect
+	github.com/pion/turn/v4 v4.1.4 // indirect
+	github.com/pion/webrtc/v4 v4.2.11 // indirect
 	github.com/pkg/errors v0.9.1 // indirect
-	github.com/quic-go/quic-go v0.59.0 // indirect
-	golang.org/x/crypto v0.50.0 // indirect
+	github.com/spaolacci/murmur3 v1.1.0 // indirect
+	github.com/wlynxg/anet v0.0.5 // indirect
+	golang.org/x/exp v0.0.0-20250408133849-7e4ce0ab07d0 // indirect
 	golang.org/x/net v0.52.0 // indirect
 	golang.org/x/sys v0.43.0 // indirect
+	golang.org/x/time v0.12.0 // indirect
+	lukechampine.com/blake3 v1.2.1 // indirect
 )
 
 replace github.com/aperturerobotics/bifrost => /repo
